@@ -519,6 +519,13 @@ func runC10(args []string) error {
 	if err := runC10BigEntryAtomic(sum); err != nil {
 		return err
 	}
+	var clusterCases []string
+	if !txnHeavy {
+		var err error
+		if clusterCases, err = runC10Cluster(rf, sum); err != nil {
+			return err
+		}
+	}
 	// one read delivered in several messages is one state too
 	if err := lazyStreamOneState(sum, joinChunks); err != nil {
 		return err
@@ -530,7 +537,7 @@ func runC10(args []string) error {
 	if err != nil {
 		return err
 	}
-	sum.CasesFiles = names
+	sum.CasesFiles = append(names, clusterCases...)
 	return sum.write(rf.Out, "c10")
 }
 
